@@ -1,6 +1,6 @@
 (* SocksProofs.v -- lemmas behind C16 (SOCKS5 front-end). *)
 From Coq Require Import List NArith ZArith Lia Bool.
-From AnyTLS Require Import Bytes Reader ReaderProg Generated GeneratedFacts Dest Socks5 BytesFacts ReaderProofs DestProofs.
+From AnyTLS Require Import Bytes Reader ReaderProg Generated FactsCore FactsParsers Dest Socks5 BytesFacts ReaderProofs DestProofs.
 Import ListNotations.
 Open Scope N_scope.
 Ltac Zify.zify_post_hook ::= Z.to_euclidean_division_equations.
